@@ -661,9 +661,10 @@ class Engine:
             except NotTabulable:
                 state = saved
         self.apps.add(key)
-        app = ("app", fn_args if isinstance(fn_args, str) and fn_args else key, tuple(args))
+        frozen_now = tuple(self.freeze(state, x) for x in args)
+        app = ("app", fn_args if isinstance(fn_args, str) and fn_args else key, frozen_now)
         if key in self.trace_calls:
-            state.trace.append(("call", key, tuple(self.freeze(state, x) for x in args)))
+            state.trace.append(("call", key, frozen_now))
         # a callee that receives `&mut` may write through it: forget what is known about the pointee
         if term is not None:
             frozen = None
@@ -783,22 +784,25 @@ class Engine:
         return out
 
     def havoc_loop(self, st, fr, body, header, blocks):
-        """Generic-iteration abstraction: every place assigned inside the loop gets an opaque loop-carried value."""
+        """Generic-iteration abstraction: every place assigned (or mutably borrowed) inside the loop gets an opaque
+        loop-carried value ("loopvar", header, place id, value on loop entry)."""
         n = 0
+        done = set()
         for p in _cfg.assigned_places(body, sorted(blocks)):
-            tag = ("loopvar", header, p["l"], tuple(str(e) if not isinstance(e, dict) else tuple(sorted((k, str(v)) for k, v in e.items() if k in ("f", "dc", "n"))) for e in p["pj"]))
-            if not p["pj"]:
-                fr.locals[p["l"]] = tag
-            else:
-                has_deref = any(e == "d" for e in p["pj"])
-                try:
-                    loc = self.loc_of_place(st, fr, p)
-                except Exception:
-                    continue
-                if has_deref or loc[0] != "local" or loc[1] != fr.id:
-                    self.write_loc(st, loc, tag)
+            pid = (p["l"], tuple(str(e) if not isinstance(e, dict) else tuple(sorted((k, str(v)) for k, v in e.items() if k in ("f", "dc", "n"))) for e in p["pj"]))
+            if pid in done:
+                continue
+            done.add(pid)
+            try:
+                if not p["pj"]:
+                    init = self.freeze(st, fr.locals.get(p["l"], ("undef",)))
+                    fr.locals[p["l"]] = ("loopvar", header, pid, init)
                 else:
-                    self.write_loc(st, loc, tag)
+                    loc = self.loc_of_place(st, fr, p)
+                    init = self.freeze(st, self.read_loc(st, loc))
+                    self.write_loc(st, loc, ("loopvar", header, pid, init))
+            except Exception:
+                continue
             n += 1
         return n
 
